@@ -5,7 +5,7 @@
    five mechanisms each possibly raising; [wf E] only says that handler ids are distinct.
    Histories are arbitrary lists of assignments, reads and `del` from any start state. *)
 From Coq Require Import List Arith Bool PeanoNat ZArith.
-From TV Require Import Common.Harness C02.Model C02.Law C02.Proofs.
+From TV Require Import Common.Harness C02.Model C02.Law C02.Proofs C02.Dyn C02.DynProofs.
 Import ListNotations.
 Local Open Scope nat_scope.
 
@@ -75,6 +75,54 @@ Theorem handler_exception_transparent :
                              (o_calls (snd (step E s o)))).
 Proof. exact transparent_and_routed. Qed.
 Print Assumptions handler_exception_transparent.
+
+(* ---------- handlers that come and go (Dyn.v): registered or removed in the middle of a history, or by a handler
+   WHILE it is being notified (it removes itself, removes another handler, registers a new one).  [wfd st]: the ids of
+   the live handlers are distinct (kept by every operation); [reacts]: handler id -> what it does when called. ---------- *)
+
+(* the law of Law.v holds at every operation for the handlers LIVE at that moment (snapshot semantics of
+   call_notifiers), the live lists being threaded from the operations and the observed calls *)
+Theorem law_holds_with_handlers_coming_and_going :
+  forall E reacts ops st i, wfd st -> dlaw_hist E reacts i st (drun E reacts st ops) = [].
+Proof. exact drun_law. Qed.
+Print Assumptions law_holds_with_handlers_coming_and_going.
+
+(* a handler receives exactly the changes of the sub-history during which it is registered: per operation, nothing if
+   it is not registered at that moment, otherwise what the notifier-free specification says — also for the operation
+   during which another handler removes it (it is still served) or registers it (it is not served yet) *)
+Theorem calls_are_exactly_changes_while_registered :
+  forall E reacts id ops st, wfd st ->
+    calls_of id (dall_calls (drun E reacts st ops)) = dspec E reacts id st ops.
+Proof. exact dcalls_exact. Qed.
+Print Assumptions calls_are_exactly_changes_while_registered.
+
+(* (un)registration during dispatch takes effect for the next operation and touches nobody else: a handler removed by a
+   called handler (itself included) is gone afterwards; every handler that no called handler removes stays *)
+Theorem registration_during_dispatch_is_local :
+  forall E reacts st op,
+    (forall k v, In (k, RKill v) reacts -> calls_of k (o_calls (snd (dstep E reacts st (DOp op)))) <> [] ->
+                 (forall k' h, In (k', RSpawn h) reacts -> h_id h <> v) ->
+                 has_id v (live (fst (dstep E reacts st (DOp op)))) = false)
+    /\ (forall x, In x (live st) ->
+                  (forall k, In (k, RKill (h_id x)) reacts -> calls_of k (o_calls (snd (dstep E reacts st (DOp op)))) = []) ->
+                  In x (live (fst (dstep E reacts st (DOp op))))).
+Proof. exact reactions_local. Qed.
+Print Assumptions registration_during_dispatch_is_local.
+
+(* Non-vacuity: on_trait_change handler 10 from the start; observe handler 30 registered after the first change; 31
+   (object level) unregisters itself when called; 32 removes 30 when called (30 is still served for that change) and
+   registers 33 (not served yet); then 10 is removed explicitly *)
+Example handlers_come_and_go :
+  let E := {| e_eq := fun a b => if a =? b then CTrue else CFalse; e_ne := fun a b => if a =? b then CFalse else CTrue;
+              e_validate := fun v => Some v; e_default := 9; e_kind := TNormal MEquality;
+              e_handlers := [mkHandler 10 Otc false]; e_store_original := false |} in
+  let reacts := [(31, RKill 31); (32, RKill 30); (32, RSpawn (mkHandler 33 Otc false))] in
+  let ops := [DOp (Assign 1); DRegister (mkHandler 30 Observe false); DRegister (mkHandler 31 OtcAny true);
+              DOp (Assign 2); DRegister (mkHandler 32 Otc false); DOp (Assign 3); DUnregister 10; DOp (Assign 4)] in
+  wfd (init E)
+  /\ map (fun p => map (fun c : call => fst (fst c)) (o_calls (snd p))) (drun E reacts (init E) ops)
+     = [[10]; []; []; [10; 30; 31]; []; [10; 30; 32]; []; [32; 33]].
+Proof. split; [repeat constructor; cbn; tauto|vm_compute; reflexivity]. Qed.
 
 (* Non-vacuity: equality mode, five mechanisms, two raising handlers; values 0 and 1 equal but not identical,
    2 is NaN-like (unequal to itself), 3 is rejected.  Calls happen for None->0, 1->2, 2->(another NaN 4) only. *)
